@@ -33,9 +33,29 @@ pub struct Base {
 pub fn bases() -> Vec<Base> {
     let mut out = vec![];
     for ty in ALL14 {
-        for n in [1usize, 2] {
+        for n in [1usize, 2, 3] {
             let records: Vec<MRecord> = if ty == Ty::Null {
                 (0..n).map(|i| MRecord { number: i as i32 + 1, body: MBody::Null }).collect()
+            } else if n == 1 && ty.is_multipart() {
+                // one record with four parts (so that offsets have inner pairs)
+                let lens = [2usize, 3, 2, 3];
+                let mut k = 0;
+                let parts = lens
+                    .iter()
+                    .enumerate()
+                    .map(|(pi, l)| {
+                        let mut pts: Vec<P4> = (0..*l).map(|i| dflt(k + i)).collect();
+                        k += l;
+                        if ty.family() == Family::Polygon {
+                            let f = pts[0];
+                            pts.push(f);
+                        }
+                        MPart { kind: if ty == Ty::Multipatch { (pi % 6) as u8 } else { 0 }, pts }
+                    })
+                    .collect();
+                let shape = MShape { ty, parts };
+                let bbox = codec::true_bbox(&shape);
+                vec![MRecord { number: 1, body: MBody::Shape { shape, bbox, with_m: true } }]
             } else {
                 // multi-part where the type allows: skip the single-part first structure
                 let mut r = c14::records(ty, n + 1);
@@ -181,6 +201,12 @@ pub fn inputs(tier: Tier, bs: &[Base]) -> Vec<Input> {
                 v.push(Input { base: bi, on_shp: which != 3, m: Mutation::Ladder { k, which } });
             }
         }
+        // partially backed ladders: the parts array (4) resp. 2^k + 1 index entries (6) are really there
+        for k in 8..=tier.pick(13, 15) {
+            for which in [4u8, 5, 6] {
+                v.push(Input { base: bi, on_shp: which != 6, m: Mutation::Ladder { k, which } });
+            }
+        }
     }
     v
 }
@@ -222,7 +248,60 @@ pub fn materialise(bs: &[Base], inp: &Input) -> Option<(Vec<u8>, Vec<u8>)> {
             }
             Mutation::Ladder { k, which } => {
                 let n: i64 = 1i64 << k;
-                if *which == 3 {
+                if *which == 6 {
+                    // 2^k + 1 real entries, header declares 2^24 of them
+                    let declared: i64 = 50 + 4 * (1i64 << 24);
+                    let entry: Vec<u8> = bytes.get(100..108).map(|x| x.to_vec()).unwrap_or(vec![0, 0, 0, 50, 0, 0, 0, 10]);
+                    bytes.truncate(100);
+                    bytes[24..28].copy_from_slice(&(declared as i32).to_be_bytes());
+                    for _ in 0..(n + 1) {
+                        bytes.extend(&entry);
+                    }
+                } else if *which == 4 || *which == 5 {
+                    // 2^k parts whose start indices are really there, each declaring L points; no points behind
+                    let ty = b.ty;
+                    let fam = ty.family();
+                    if !ty.is_multipart() {
+                        return None;
+                    }
+                    let l: i64 = if *which == 4 { 1024 } else { 1 };
+                    let (parts, points) = (n, n * l);
+                    if points > i32::MAX as i64 {
+                        return None;
+                    }
+                    let mut size: i64 = 4 + 32 + 4 + 4 + 4 * parts;
+                    if fam == Family::Multipatch {
+                        size += 4 * parts;
+                    }
+                    size += 16 * points;
+                    if ty.has_z() {
+                        size += 16 + 8 * points;
+                    }
+                    if ty.carries_m() {
+                        size += 16 + 8 * points;
+                    }
+                    let words = size / 2;
+                    if 50 + 4 + words > i32::MAX as i64 {
+                        return None;
+                    }
+                    bytes.truncate(100 + 8 + 4 + 32);
+                    bytes[24..28].copy_from_slice(&((50 + 4 + words) as i32).to_be_bytes());
+                    bytes[104..108].copy_from_slice(&(words as i32).to_be_bytes());
+                    bytes.extend((parts as i32).to_le_bytes());
+                    bytes.extend((points as i32).to_le_bytes());
+                    for i in 0..parts {
+                        bytes.extend(((i * l) as i32).to_le_bytes());
+                    }
+                    if fam == Family::Multipatch {
+                        for i in 0..parts {
+                            bytes.extend(((i % 6) as i32).to_le_bytes());
+                        }
+                    }
+                    // the first part's points are there, nothing else
+                    for _ in 0..l.min(8) {
+                        bytes.extend([0u8; 16]);
+                    }
+                } else if *which == 3 {
                     // index header declaring n entries, none present
                     let words = 50 + 4 * n;
                     if words > i32::MAX as i64 {
